@@ -39,10 +39,11 @@
 (*       to any block (AddXxx actions); every program with an observing     *)
 (*       statement is published.                                            *)
 (*  run: Init picks a numbered program (with the definedness facts exported *)
-(*       from its real compilation: mn = cf_maybe_null, isn = cf_is_null of *)
-(*       the NameNode) from IOEnv.PROGS; Next is the small-step machine;    *)
-(*       terminal states publish word, expected log, outcome, and the fact  *)
-(*       verdicts  unbound-at-use => mn,  isn => unbound-at-use.            *)
+(*       from its real compilation: fx = cf_maybe_null / cf_is_null of the  *)
+(*       NameNode, per finally-copy context) from IOEnv.PROGS; Next is the  *)
+(*       small-step machine; terminal states publish word, expected log,    *)
+(*       outcome, and the fact verdicts  unbound-at-use => cf_maybe_null,   *)
+(*       cf_is_null => unbound-at-use.                                      *)
 EXTENDS Integers, Sequences, FiniteSets, TLC, Json, IOUtils
 
 CONSTANTS NV,        \* variables 1..NV
@@ -61,11 +62,12 @@ HShAll   == {<<>>, <<"V">>, <<"N">>, <<"*">>, <<"V", "N">>}
 HShSmall == {<<>>, <<"V">>, <<"*">>}
 HShOne   == {<<"V">>}
 HShFin   == {<<>>}
+HShStar  == {<<"*">>}
 
 ---------------------------------------------------------------------------
 (* statements *)
 Base(t, v) == [t |-> t, id |-> 0, v |-> v, r |-> 0, c |-> "", g |-> FALSE, d |-> FALSE,
-               a |-> <<>>, b |-> <<>>, hs |-> <<>>, f |-> <<>>, mn |-> TRUE, isn |-> FALSE]
+               a |-> <<>>, b |-> <<>>, hs |-> <<>>, f |-> <<>>, fx |-> [c |-> 1]]
 
 Compound    == {"if", "while", "for", "try", "with", "match"}
 Loops       == {"while", "for"}
@@ -105,6 +107,10 @@ UsedVars(blk) ==
   IN UNION { IF fl[i].t \in {"read", "cread", "cex", "del"} THEN {fl[i].v}
              ELSE IF fl[i].t = "comp" /\ fl[i].r # fl[i].v THEN {fl[i].r} ELSE {} : i \in 1..Len(fl) }
 Closed(blk) == UsedVars(blk) \subseteq LocalVars(blk)
+\* names that are unbound by a deletion: `del v`, and the implicit deletion at the end of `except .. as v`
+DeletedVars(blk) ==
+  LET fl == Flat(blk)
+  IN UNION { (IF fl[i].t = "del" THEN {fl[i].v} ELSE {}) \cup {fl[i].hs[j].v : j \in 1..Len(fl[i].hs)} : i \in 1..Len(fl) } \ {0}
 
 ---------------------------------------------------------------------------
 (* gen phase: program growth *)
@@ -139,7 +145,7 @@ AsSet == IF AsVars THEN {0} \cup Vars ELSE {0}
 AddAssign     == "asg" \in Kinds /\ \E v \in Vars : Leaf(Base("asg", v))
 AddDel        == "del" \in Kinds /\ \E v \in Vars \ VarsOf(prog, "cread") : Leaf(Base("del", v))
 AddRead       == "read" \in Kinds /\ \E v \in Vars : Leaf(Base("read", v))
-AddClosureRead == "cread" \in Kinds /\ \E v \in Vars \ VarsOf(prog, "del") : Leaf(Base("cread", v))
+AddClosureRead == "cread" \in Kinds /\ \E v \in Vars \ DeletedVars(prog) : Leaf(Base("cread", v))
 AddWalrus     == "wal" \in Kinds /\ \E v \in Vars : Leaf(Base("wal", v))
 AddCondRead   == "cex" \in Kinds /\ \E v \in Vars : Leaf(Base("cex", v))
 AddComp       == "comp" \in Kinds /\ \E v \in Vars, r \in Vars : Leaf([Base("comp", v) EXCEPT !.r = r])
@@ -156,7 +162,7 @@ AddMatch      == "match" \in Kinds /\ \E v \in Vars, g \in BOOLEAN, d \in BOOLEA
                     Nest([Base("match", v) EXCEPT !.g = g, !.d = d])
 AddTry        == "try" \in Kinds /\ \E hc \in HSh, asv \in AsSet, fin \in BOOLEAN :
                     /\ hc # <<>> \/ fin
-                    /\ asv # 0 => hc # <<>>
+                    /\ asv # 0 => hc # <<>> /\ asv \notin VarsOf(prog, "cread")
                     /\ Nest([Base("try", 0) EXCEPT !.g = fin,
                                 !.hs = [i \in 1..Len(hc) |-> [c |-> hc[i], v |-> IF i = 1 THEN asv ELSE 0, a |-> <<>>]]])
 \* an assignment in dead code (after return / break / continue / raise): the name is still a local
@@ -185,7 +191,7 @@ WFStmt(s, lp) ==
   /\ \A k \in Sel(s) : WFBlock(Get(s, k), IF s.t \in Loops THEN (k = 1 \/ lp) ELSE lp)
 WFBlock(blk, lp) == \A i \in 1..Len(blk) : WFStmt(blk[i], lp)
 WellFormed(p) == /\ WFBlock(p, FALSE)
-                 /\ VarsOf(p, "cread") \cap VarsOf(p, "del") = {}    \* Cython cannot delete cell variables (documented)
+                 /\ VarsOf(p, "cread") \cap DeletedVars(p) = {}    \* Cython cannot delete cell variables (documented)
 
 GenWellFormed == m = NoMachine => WellFormed(prog)
 GenBounded    == m = NoMachine => NStmts(prog) <= MaxStmts /\ NComp(prog) <= MaxComp
@@ -213,7 +219,7 @@ HIdx(c, hs) == LET ok == {j \in 1..Len(hs) : Matches(c, hs[j].c)}
 InitM(pid) == [pid |-> pid, ctl |-> <<SeqFr(Progs[pid].prog)>>, sig |-> Norm,
                bnd |-> [v \in Vars |-> 0], log |-> <<>>, word |-> <<>>, out |-> "",
                fv |-> {}, tries |-> 0, fins |-> 0, nas |-> 0,
-               why |-> [v \in Vars |-> 1], wat |-> [v \in Vars |-> 0]]
+               why |-> [v \in Vars |-> 1], wat |-> [v \in Vars |-> 0], bset |-> {}]
 
 InitRun == \E pid \in 1..Len(Progs) : prog = Progs[pid].prog /\ m = InitM(pid)
 
@@ -231,35 +237,46 @@ PopF(x)     == [x EXCEPT !.ctl = SubSeq(@, 1, Len(@) - 1)]
 PushF(x, f) == [x EXCEPT !.ctl = Append(@, f)]
 ReplF(x, f) == [x EXCEPT !.ctl[Len(x.ctl)] = f]
 Adv         == [m EXCEPT !.ctl[Depth].r = Tail(@)]            \* statement Cur taken from its block
+\* B3 facts.  s.fx maps a context string to the flags of the NameNode that the compiler generates code from:
+\* 1 = cf_maybe_null, 2 = cf_maybe_null and cf_is_null, 0 = neither ("always bound here").  The body of a finally
+\* block is compiled in two copies (normal/jump exit, exception exit) that are analysed separately; the context
+\* is "c" followed by one letter per finally block being executed: x when its pending exit is an exception, else n.
+RECURSIVE FinCtx(_)
+FinCtx(ctl) == IF ctl = <<>> THEN "c"
+               ELSE FinCtx(SubSeq(ctl, 1, Len(ctl) - 1)) \o
+                    (IF ctl[Len(ctl)].f = "fin" THEN (IF ctl[Len(ctl)].pend.t = "exc" THEN "x" ELSE "n") ELSE "")
+FactAt(x, s) == LET cx == FinCtx(x.ctl) IN IF cx \in DOMAIN s.fx THEN s.fx[cx] ELSE 1      \* no fact: no claim
+\* fact verdicts: a use of v at statement s that finds v unbound although the compiler says it cannot be
+\* (not maybe_null), or bound although the compiler says it is never bound there (is_null)
+Fact(x, s, unbound) ==
+  [x EXCEPT !.fv = @ \cup (IF unbound /\ FactAt(x, s) = 0 THEN {<<s.id, "mn", FinCtx(x.ctl)>>} ELSE {})
+                     \cup (IF ~unbound /\ FactAt(x, s) = 2 THEN {<<s.id, "isn", FinCtx(x.ctl)>>} ELSE {})]
+
 \* ghost: why[v] says how v came to be unbound (1 never bound, 2 del statement, 3 end of an `except .. as v`
-\* handler), wat[v] which statement did it (the del statement / the try statement); a failed use is logged as
-\* <<id, -why, wat>>, a successful one as <<id, value, 0>>
-Bind(x, v, val)     == [x EXCEPT !.bnd[v] = val, !.why[v] = 0, !.wat[v] = 0]
+\* handler), bset the binding statements executed so far, wat[v] which statement did it (the del statement / the try statement); a failed use is logged as
+\* <<id, -why, wat, fact>>, a successful one as <<id, value, 0, fact>> (fact = the compiler's flags for this use in
+\* the current context, 1 for events that are not uses)
+Bind(x, v, val)     == [x EXCEPT !.bnd[v] = val, !.why[v] = 0, !.wat[v] = 0, !.bset = @ \cup {val}]
 Unbind(x, v, w, at) == [x EXCEPT !.bnd[v] = 0, !.why[v] = w, !.wat[v] = at]
-Ev(x, id, val)      == [x EXCEPT !.log = Append(@, <<id, val, 0>>)]
-EvFail(x, id, v)    == [x EXCEPT !.log = Append(@, <<id, 0 - x.why[v], x.wat[v]>>)]
+Ev(x, id, val)      == [x EXCEPT !.log = Append(@, <<id, val, 0, 1>>)]
+EvUse(x, s, val)    == [x EXCEPT !.log = Append(@, <<s.id, val, 0, FactAt(x, s)>>)]
+EvFail(x, s, v)     == [x EXCEPT !.log = Append(@, <<s.id, 0 - x.why[v], x.wat[v], FactAt(x, s)>>)]
 Sig(x, s)        == [x EXCEPT !.sig = s]
 
-\* fact verdicts: a use of v at statement s that finds v unbound although the compiler says it cannot be
-\* (mn = FALSE), or bound although the compiler says it is never bound there (isn = TRUE)
-Fact(x, s, unbound) ==
-  [x EXCEPT !.fv = @ \cup (IF unbound /\ ~s.mn THEN {<<s.id, "mn">>} ELSE {})
-                     \cup (IF ~unbound /\ s.isn THEN {<<s.id, "isn">>} ELSE {})]
-
 \* a use (read / delete) of local v at statement s: UnboundLocalError (a failed-use event) or the value
-Use(x, s, v) == IF x.bnd[v] = 0 THEN Sig(EvFail(Fact(x, s, TRUE), s.id, v), Exc("U"))
-                ELSE Ev(Fact(x, s, FALSE), s.id, x.bnd[v])
+Use(x, s, v) == IF x.bnd[v] = 0 THEN Sig(EvFail(Fact(x, s, TRUE), s, v), Exc("U"))
+                ELSE EvUse(Fact(x, s, FALSE), s, x.bnd[v])
 
 Go(x) == prog' = prog /\ m' = x
 
 Assign      == AtStmt /\ Cur.t = "asg" /\ Go(Bind(Adv, Cur.v, Cur.id))
 Delete      == AtStmt /\ Cur.t = "del" /\
                Go(IF Adv.bnd[Cur.v] = 0 THEN Use(Adv, Cur, Cur.v)
-                  ELSE Ev(Unbind(Fact(Adv, Cur, FALSE), Cur.v, 2, Cur.id), Cur.id, 0))
+                  ELSE EvUse(Unbind(Fact(Adv, Cur, FALSE), Cur.v, 2, Cur.id), Cur, 0))
 Read        == AtStmt /\ Cur.t = "read" /\ Go(Use(Adv, Cur, Cur.v))
 ClosureRead == AtStmt /\ Cur.t = "cread" /\
-               Go(IF Adv.bnd[Cur.v] = 0 THEN Sig(EvFail(Fact(Adv, Cur, TRUE), Cur.id, Cur.v), Exc("N"))
-                  ELSE Ev(Fact(Adv, Cur, FALSE), Cur.id, Adv.bnd[Cur.v]))
+               Go(IF Adv.bnd[Cur.v] = 0 THEN Sig(EvFail(Fact(Adv, Cur, TRUE), Cur, Cur.v), Exc("N"))
+                  ELSE EvUse(Fact(Adv, Cur, FALSE), Cur, Adv.bnd[Cur.v]))
 Walrus      == AtStmt /\ Cur.t = "wal" /\ \E c \in Ch :
                Go(IF c = 1 THEN Bind(Take(Adv, c), Cur.v, Cur.id) ELSE Take(Adv, c))
 CondRead    == AtStmt /\ Cur.t = "cex" /\ \E c \in Ch :
@@ -367,5 +384,5 @@ Progress == Running => ENABLED Step
 
 PublishRun == (Dump /\ m # NoMachine /\ m.out # "") =>
                  PrintT("@@" \o ToJson([pid |-> Progs[m.pid].pid, word |-> m.word, log |-> m.log, out |-> m.out,
-                                        fv |-> m.fv]))
+                                        fv |-> m.fv, bset |-> m.bset]))
 =============================================================================
